@@ -738,3 +738,34 @@ func TestC05_ManyGrowths(t *testing.T) {
 	rec.Merge(bt)
 	rec.SetExhaustive()
 }
+
+// TestC05_HugeInterval (thorough tier, one shard): more than 256 MiB queued in ONE flush interval of a
+// stream-backed writer, every region filled only after the last growth (a writer that copies a large
+// buffer at growth time instead of keeping it until Flush would pass the sink a stale snapshot).
+func TestC05_HugeInterval(t *testing.T) {
+	rec := evid.New("C05", "c05_huge_interval", "thorough tier only: one flush interval of a stream-backed writer holding regions of 257 MiB, 100 bytes, 300 MiB and 64 bytes (and the same with 129 MiB / 140 MiB), all filled only after the last growth, then Flush and a second short interval; full C05 oracle; about 3 GiB resident, run in one shard; distinct by construction")
+	defer rec.Flush()
+	shard, _ := evid.Shard()
+	if !evid.Thorough() || shard != 0 {
+		rec.Label("huge_interval_skipped_in_this_tier_or_shard", 1)
+		return
+	}
+	bt := evid.NewBatch()
+	for _, sz := range [][2]int{{129 << 20, 140 << 20}, {257 << 20, 300 << 20}} {
+		ops := []WOp{{"lazy", sz[0]}, {"lazy", 100}, {"lazy", sz[1]}, {"lazy", 64}, {"flush", 0}, {"lazy", 3}, {"malloc", 5000}, {"flush", 0}}
+		c := WriterCase{Bytes: false, Ops: ops}
+		var cv cov
+		v := checkWriterCase(c, &cv)
+		bt.Evals++
+		bt.Distinct++
+		bt.Nontrivial++
+		debug.FreeOSMemory()
+		if v != nil {
+			failEnum(t, rec, "c05_writer_history", c, v)
+			rec.Merge(bt)
+			return
+		}
+	}
+	rec.Merge(bt)
+	rec.SetExhaustive()
+}
